@@ -130,21 +130,18 @@ void internal_start(fsm_t* self, event_t incomingEvent)
 __CPROVER_requires(REGIONS_OK && __CPROVER_is_fresh(self, sizeof(*self)) && self == g_self)
 __CPROVER_requires(g_seq == 2 && g_entry_next == 0 && !g_exc)   /*@ob C02.substates-entered-after-the-machines-own-entry */
 __CPROVER_requires(!incomingEvent.wrapped && EV_EQ_U(incomingEvent, g_evt))      /*@ob C09.substates-see-the-original-event */
-#if defined(CALLER_START)
-__CPROVER_requires(!self->m_event_processing)            /* called from start(): nothing has set the busy mark (start units) */
-#elif defined(CALLER_DO_ENTRY)
-__CPROVER_requires(self->m_event_processing)             /* called inside do_entry's busy bracket */
-#endif
-__CPROVER_assigns(g_entry_next, g_seq, g_exc)
+__CPROVER_requires(g_no_msg_queue || self->m_event_processing)   /* only called inside do_entry's busy bracket (direct_event_start_helper units) */
+__CPROVER_assigns(g_entry_next, g_seq, g_exc, self->m_event_processing)
 __CPROVER_ensures(g_seq == 2 || g_seq == 3)
 __CPROVER_ensures(!g_exc ==> (g_entry_next == nr_regions && g_seq == 3))         /*@ob C10.completion-event-issued-once-after-entry */
+__CPROVER_ensures(!g_exc ==> !self->m_event_processing)                          /* the busy mark is cleared before the completion event is issued (process_completion_event requires it) */
 ;
 
 /* direct_event_start_helper(self)(evt, fsm): 4 variants selected at compile time by the kind of entering event
    -DENTRY_KIND=0 plain, 1 direct (explicit entry), 2 fork, 3 entry pseudo state */
 void fork_foreach(fsm_t* self, event_t evt)         /* mpl::for_each<active_state>(fork_helper(self,evt)) : proved in its own unit <be>.fork_helper.foreach (foreach_back.spec.h, same ensures) */
 __CPROVER_requires(g_seq == 2 && g_forked == 0)
-__CPROVER_assigns(g_forked, __CPROVER_object_whole(self->m_states))
+__CPROVER_assigns(g_forked, __CPROVER_object_upto(self->m_states, sizeof(self->m_states)))
 __CPROVER_ensures(g_forked == 1)
 __CPROVER_ensures(self->m_states[g_k] == (g_k_is_fork_target ? g_k_fork_id : __CPROVER_old(self->m_states[g_k])))
 ;
@@ -160,7 +157,7 @@ __CPROVER_requires(g_seq == 1 && g_entry_next == 0 && g_forked == 0 && g_pe_call
 __CPROVER_requires(EV_EQ_U(evt, g_evt) && evt.wrapped == (ENTRY_KIND != 0))
 __CPROVER_requires(0 <= g_target_region && g_target_region < nr_regions)
 __CPROVER_requires(g_no_msg_queue || self->m_event_processing)
-__CPROVER_assigns(g_seq, g_entry_next, g_exc, g_forked, g_pe_calls, __CPROVER_object_whole(self->m_states))
+__CPROVER_assigns(g_seq, g_entry_next, g_exc, g_forked, g_pe_calls, self->m_event_processing, __CPROVER_object_upto(self->m_states, sizeof(self->m_states)))
 __CPROVER_ensures(!g_exc ==> g_seq == 3)                                          /*@ob C02,C09.substates-entered-exactly-once-after-the-own-entry */
 __CPROVER_ensures((ENTRY_KIND == 1 || ENTRY_KIND == 3) ==> (g_seq == 3 ==> self->m_states[g_k] == (g_k == g_target_region ? g_target_id : __CPROVER_old(self->m_states[g_k]))))   /*@ob C09.explicit-entry-sets-only-the-targeted-region */
 __CPROVER_ensures(ENTRY_KIND == 0 ==> self->m_states[g_k] == __CPROVER_old(self->m_states[g_k]))                                /*@ob C08,C09.plain-entry-keeps-the-history-or-initial-states */
@@ -175,7 +172,7 @@ void direct_event_start_helper_call(fsm_t* self, event_t evt, fsm_t* fsm)
 __CPROVER_requires(g_dstep == 1 && !g_exc)                                       /*@ob C08.regions-initialised-from-history-before-explicit-targets */
 __CPROVER_requires(g_no_msg_queue || self->m_event_processing)                   /*@ob C04.entry-behaviours-run-with-the-busy-mark-set */
 __CPROVER_requires(self->m_states[g_k] == g_hist_answer[g_k])                    /*@ob C08.every-region-starts-where-history-says */
-__CPROVER_assigns(g_dstep, g_exc, __CPROVER_object_whole(self->m_states))
+__CPROVER_assigns(g_dstep, g_exc, self->m_event_processing, __CPROVER_object_upto(self->m_states, sizeof(self->m_states)))      /* internal_start clears the busy mark before the completion event */
 __CPROVER_ensures(g_dstep == 2)
 ;
 void do_handle_deferred(fsm_t* self, _Bool new_seq)
@@ -221,12 +218,19 @@ __CPROVER_ensures(!g_exc ==> g_entry_next == nr_regions)
 ;
 static event_t fsm_initial_event(void) { return g_evt; }
 static event_t fsm_final_event(void) { return g_evt; }
+void start_process_message_queue(fsm_t* self)      /* process_message_queue(this) at the end of start(): events raised by the initial entry behaviours */
+__CPROVER_requires(g_seq == 3 && !g_exc)                                           /*@ob C04,C10.events-raised-by-the-initial-entries-run-after-the-completion-event */
+__CPROVER_requires(g_no_msg_queue || !self->m_event_processing)                  /*@ob C04.pending-events-run-after-the-step-completed */
+__CPROVER_assigns(g_seq, g_exc)
+__CPROVER_ensures(g_seq == 4)
+;
 void start_unit(fsm_t* self, event_t incomingEvent)
 __CPROVER_requires(REGIONS_OK && __CPROVER_is_fresh(self, sizeof(*self)) && self == g_self && g_seq == 0 && g_entry_next == 0 && !g_exc && EV_EQ_U(incomingEvent, g_evt) && !incomingEvent.wrapped && !g_evt.wrapped)
 __CPROVER_requires(!self->m_event_processing)
-__CPROVER_assigns(g_seq, g_entry_next, g_exc, __CPROVER_object_upto(self->m_states, sizeof(self->m_states)))
+__CPROVER_assigns(g_seq, g_entry_next, g_exc, self->m_event_processing, __CPROVER_object_upto(self->m_states, sizeof(self->m_states)))
 __CPROVER_ensures(self->m_states[g_k] == g_init_ids[g_k])                                                      /*@ob C03.start-enters-the-initial-configuration */
-__CPROVER_ensures(!g_exc ==> (g_entry_next == nr_regions && g_seq == 3))                                      /*@ob C02,C10.own-entry-then-initial-entries-then-completion-event */
+__CPROVER_ensures(!g_exc ==> (g_entry_next == nr_regions && g_seq == 4))                                      /*@ob C02,C04,C10.own-entry-then-initial-entries-then-completion-event-then-raised-events */
+__CPROVER_ensures(!self->m_event_processing)                                                                  /*@ob C04,C12.machine-not-left-busy */
 ;
 void do_exit_stub(fsm_t* self, event_t evt, fsm_t* fsm)
 __CPROVER_requires(self == fsm && g_seq == 0)
